@@ -6,6 +6,7 @@ Nothing here computes an expected value: it renders, runs and compares.
 """
 import re
 import tempfile
+import zlib
 
 from .common import MachineryError, tmp_root, rmtree
 from .drive import asm
@@ -92,7 +93,13 @@ def stmt(s, inc_names, indent=""):
             raise MachineryError(f"unknown insn {op}")
         return [indent + "\t" + t]
     if k in ("word", "byte", "dword"):
-        return [indent + "\t." + k + (" " + ", ".join(expr(x) for x in s["es"]) if s["es"] else "")]
+        ops = ", ".join(expr(x) for x in s["es"])
+        first = ops.split(",")[0]
+        if k == "word" and ops and ops[0].isdigit() and "." not in first and ":" not in first and zlib.crc32(ops.encode()) % 3 == 0:
+            # every third word list that begins with a plain number in the implicit spelling (no '.word'); a name alone would be read
+            # as an instruction, a number with a colon as a label
+            return [indent + "\t" + ops]
+        return [indent + "\t." + k + (" " + ops if s["es"] else "")]
     if k in ("blkb", "blkw", "align"):
         return [indent + f"\t.{k} {expr(s['e'])}"]
     if k in ("even", "odd", "end", "once"):
